@@ -99,6 +99,15 @@ theorem montgomeryReduce_spec (a : BitVec 64) (h0 : -(2147483648 * 8380417) ≤ 
   simp only [Int.bmod_def]
   split <;> split <;> omega
 
+/-- the quotient form: `r·2^32 = a − t·q` with `t` an int32, hence `|r·2^32| ≤ |a| + 2^31·q` -/
+theorem montgomeryReduce_tight (a : BitVec 64) (h0 : -(2147483648 * 8380417) ≤ a.toInt) (h1 : a.toInt < 2147483648 * 8380417) :
+    a.toInt - 2147483648 * 8380417 < (montgomeryReduce a).toInt * 4294967296 ∧
+    (montgomeryReduce a).toInt * 4294967296 ≤ a.toInt + 2147483648 * 8380417 := by
+  rw [montgomeryReduce_toInt a h0 h1]
+  generalize a.toInt = A at *
+  simp only [Int.bmod_def]
+  split <;> split <;> omega
+
 theorem toInt_nonneg_toNat (x : BitVec 32) (h : 0 ≤ x.toInt) : x.toInt = x.toNat := by
   rw [BitVec.toInt_eq_toNat_cond] at h ⊢
   split at h <;> simp_all
